@@ -245,7 +245,12 @@ def post_explore(ctx, res, pids, opts):
                         seam.arm(draw_values(ctx.mactions[h_idx]["prob"])[h_side])
                         env.step(ctx.actions[h_idx])
                     if env.current_state.tensor.tobytes() != key:
-                        raise HarnessError(f"{ctx.name}: BFS history replayed through step() does not reach its state")
+                        # the graph was built by generative steps with exactly these actions and scripted draws
+                        ctx.report("C13", "step_history_does_not_reach_the_state_generative_steps_reached", key=key,
+                                   detail={"history": hist,
+                                           "note": "reset() + the recorded (action, draw) history through step() ends in a different "
+                                                   "state than the chain of generative steps that discovered this state"})
+                        break
                     seam.arm(dv[side])
                     o, r, done, trunc, info = env.step(action)
                     seam.arm(dv[side])
